@@ -98,6 +98,8 @@ func init() {
 // of everything (Gemfile.lock) — whose length lies around bufio.Scanner's 64 KiB token limit: 65 534 and 65 535 bytes fit, 65 536 and
 // 70 000 do not. None of the formats limits the length of a line, so the expected list is that of the file without the line. These cases
 // carry no record token: the Lean Spec's WF assumes short lines, the generator's list is the specification here (src=gen).
+var longCount = map[string]int{}
+
 func withLong(name string, gen func(r *rand.Rand) gcase) func(r *rand.Rand) gcase {
 	return func(r *rand.Rand) gcase {
 		c := gen(r)
@@ -123,6 +125,11 @@ func withLong(name string, gen func(r *rand.Rand) gcase) func(r *rand.Rand) gcas
 			}
 			return c
 		}
+		// at most 160 of these per format and run: each is a 130 KB case line (the thorough tier would otherwise carry a gigabyte of them)
+		if longCount[name] >= 160 {
+			return c
+		}
+		longCount[name]++
 		k := []int{65534, 65535, 65536, 70000}[r.Intn(4)]
 		body := func(prefix string) string { return prefix + strings.Repeat("x", k-len(prefix)) }
 		var bounds []int // offsets just after a '\n' (and 0) where a whole line may be inserted
